@@ -832,11 +832,64 @@ def validate_bead_traces(ctx, recs, spans, items):
         ctx.nontriv(("beadtrace", s[2], ctx.seed))
 
 
+# ----------------------------------------------------------------------------------------
+# mode H for distance labelling: several sweeps over ONE Graph object (GraphHist.tla)
+# ----------------------------------------------------------------------------------------
+
+def check_sweep_histories(ctx, exe, hists):
+    items = []
+    for i, r in enumerate(hists):
+        vs = r["vs"]
+        cmds = [_gcmd(vs, [1 + (k % 3) for k in range(len(vs))], r["es"])]
+        cmds += ["prelabel %d %d" % (v, d) for v, d in r["pre"]]
+        cmds += ["hdist %d" % op["s"] for op in r["h"]]
+        items.append((i, cmds))
+    results, crashes = _run_parallel(exe, items)
+    for i, r in enumerate(hists):
+        ctx.traces += 1
+        ctx.nontriv(("sweeps", tuple(r["vs"]), tuple(map(tuple, r["es"])), tuple(map(tuple, r["pre"])),
+                     tuple(op["s"] for op in r["h"])))
+        if i in crashes:
+            ctx.violation("dist:history:crash", "driver aborted: %s on %s" % (crashes[i], r), r)
+            continue
+        out = results[i][1 + len(r["pre"]):]
+        for j, (op, lines) in enumerate(zip(r["h"], out)):
+            ex = _exc(lines)
+            if ex:
+                ctx.violation("dist:history:exception", "sweep %d from %d raised %s; %s" % (j, op["s"], ex, _sweeps(r)), r)
+                break
+            sec = _sections(lines[0])
+            got = dict((int(t.split(":")[0]), int(t.split(":")[1])) for t in sec.get("dist", []))
+            wrong = [(v, got.get(v), d) for v, d in op["d"] if got.get(v) != d]
+            if wrong:
+                if j == 0:
+                    kind = "prelabelled-first-sweep" if r["pre"] else "first-sweep"
+                else:
+                    kind = "repeated-start" if op["s"] in [o["s"] for o in r["h"][:j]] else "later-sweep-other-start"
+                v, g_, d = wrong[0]
+                ctx.violation("dist:history:%s" % kind,
+                              "sweep %d from %d on the same Graph object labels vertex %d with %s, shortest hop count is %d "
+                              "(%d wrong labels); %s" % (j, op["s"], v, g_, d, len(wrong), _sweeps(r)), r)
+                break
+            # transcription conformance only: untouched vertices keep what they had
+            keep = [(v, d) for v, d in op["keep"] if (got.get(v) if d >= 0 else (-1 if v not in got else got[v])) != d]
+            if keep:
+                ctx.extra.setdefault("algo_drift", [])
+                if len(ctx.extra["algo_drift"]) < 5:
+                    ctx.extra["algo_drift"].append({"unreached_label_changed": keep, "history": _sweeps(r)})
+
+
+def _sweeps(r):
+    return "G: V=%s E=%s pre-labels=%s sweeps from %s" % (r["vs"], r["es"], r["pre"], [op["s"] for op in r["h"]])
+
+
 def _replay(ctx, exe):
     """--replay FILE: re-run exactly one recorded vector / history / logged run"""
     import json
     obj = json.load(open(ctx.replay))["replay"]
-    if isinstance(obj, dict) and "h" in obj:
+    if isinstance(obj, dict) and "h" in obj and "pre" in obj:
+        check_sweep_histories(ctx, exe, [obj])
+    elif isinstance(obj, dict) and "h" in obj:
         check_histories(ctx, exe, [obj], "replay")
     elif isinstance(obj, dict) and "dist" in obj:
         check_vectors(ctx, exe, [obj], "replay")
@@ -854,7 +907,8 @@ def run(ctx):
     exe = bindir + "/drv_graph"
     quick = ctx.quick
     ctx.rule = ("mode L: one vector per (graph, salt) of the TLC domain, non-trivial = distinct (V,E,salt); "
-                "mode H: every BeadStructure call history of the TLC model (BFS to Depth + simulation); "
+                "mode H: every BeadStructure call history of the TLC model (BFS to Depth + simulation) and every history "
+                "of 2-3 GraphDistVisitor sweeps over one Graph object (with/without left-over Dist labels); "
                 "trace validation: logged runs on random graphs of 8-12 vertices / long random call sequences")
     ctx.assumptions += [
         "simple graphs only (no self loops, no parallel edges); attributes from a 4-entry (name,mass) palette",
@@ -870,6 +924,16 @@ def run(ctx):
     res = vlib.tlc("graph", mod, cfg=mod + ".cfg", timeout=3000)
     vlib.tlc_must_hold(res, "GraphBFS: labels are shortest hop counts under every neighbour order")
     ctx.add_tlc(mod, res)
+
+    # ---- 1b. histories of sweeps over one Graph object (mode H) -----------------------------
+    mod = "MCHistQuick" if quick else "MCHistThorough"
+    res = vlib.tlc("graph", mod, cfg=mod + ".cfg", timeout=3000)
+    vlib.tlc_must_hold(res, "GraphHist: after every sweep the reachable vertices carry the hop counts of that start")
+    ctx.add_tlc(mod, res)
+    if not res.records:
+        raise vlib.InfraError("no sweep histories exported by " + mod)
+    check_sweep_histories(ctx, exe, res.records)
+    ctx.sample({"sweep_history": res.records[len(res.records) // 2]})
 
     # ---- 2. graph vectors (mode L) ---------------------------------------------------------
     mod = "MCVecQuick" if quick else "MCVecThorough"
